@@ -19,7 +19,7 @@ DECIDING = ["C10.frames"]
 RULE = ("molecule pairs written by the harness as .xyz/.gro/.pdb (1-12 atoms of H/C/N/O: single atoms, collinear, planar, non-planar, off-centre "
         "files) plus input/H2O.gro, read through OneMoleculeReader; grid arrays: real FullGrid arrays and non-grid arrays of random unit "
         "quaternions (both signs, pools of repeated orientations in arbitrary order, near-identity rotations, re-sorted / thinned grid rows) "
-        "with positions up to 50 A, 1-60 rows; routes: Pseudotrajectory directly, PtWriter from a saved .npy, PtWriter after write_structure "
+        "with positions up to 50 A, 1-60 rows; routes: Pseudotrajectory directly, the generator with frames retained by the caller, PtWriter from a saved .npy, PtWriter after write_structure "
         "with the written xyz file read back. "
         "Every frame of every pseudotrajectory is judged. Non-trivial = second molecule with >=2 atoms and >=2 rows; distinct by (molecules, array digest)")
 ASSUMPTIONS = ["coordinates pass through MDAnalysis float32 storage: tolerance 5e-5 A + 4e-7*|x|", "centres of mass use MDAnalysis' own guessed masses",
@@ -86,6 +86,31 @@ def judge_universe(u, ref, where):
     else:
         REC.ok(mon)
         REC.extra["frames_judged"] = REC.extra.get("frames_judged", 0) + len(grid)
+
+
+def judge_retained_frames(frames, ref, where):
+    """frames = list(generate_pseudotrajectory()) kept by the caller: indices 0,1,2,... and every RETAINED frame still holds its own placement"""
+    mon = "C10.frames"
+    x1, x2, m2, grid = ref["x1"], ref["x2"], ref["m2"], ref["grid"]
+    n1 = len(x1)
+    problems = []
+    if len(frames) != len(grid):
+        problems.append(f"{len(frames)} frames for {len(grid)} rows")
+    if [int(i) for i, _ in frames] != list(range(len(frames))):
+        problems.append({"frame indices": [int(i) for i, _ in frames][:10]})
+    com = (x2 * m2[:, None]).sum(axis=0) / m2.sum()
+    for k, (_, u) in enumerate(frames[:len(grid)]):
+        pos = np.array(u.atoms.positions, dtype=float)
+        want2 = (x2 - com) @ quat_to_matrix(grid[k, 3:]).T + com + grid[k, :3]
+        tol = 5e-5 + 4e-7 * (np.abs(want2).max() + np.abs(x2).max())
+        if pos.shape != (n1 + len(x2), 3) or np.abs(pos[n1:] - want2).max() > tol or (n1 and np.abs(pos[:n1] - x1).max() > tol):
+            problems.append({"retained frame": k, "second molecule off by": float(np.abs(pos[n1:] - want2).max()) if pos.shape == (n1 + len(x2), 3) else None})
+            if len(problems) > 3:
+                break
+    if problems:
+        REC.fail(mon, {"where": where, "rows": len(grid), "problems": problems})
+    else:
+        REC.ok(mon)
 
 
 def pt_frames_are_rigid_placements(self, result):
@@ -242,7 +267,7 @@ def drive(pts, io, d, rng, nprng, tier, idx):
     else:
         write_molecule(p2, X2, el2)
     arr, desc = make_array(rng, nprng, tier)
-    route = rng.choice(["direct", "ptwriter", "ptwriter_then_structure"])
+    route = rng.choice(["direct", "generator", "ptwriter", "ptwriter_then_structure"])
     REC.begin_case({"mol1": [k1, n1, e1], "mol2": [k2, n2, e2], "array": desc, "route": route, "rows_head": arr[:3]},
                    cls=[f"route={route}", f"mol2={k2}", f"array={desc.split()[0]}"], sample=(idx % 9 == 0))
     try:
@@ -250,6 +275,13 @@ def drive(pts, io, d, rng, nprng, tier, idx):
             m1 = io.OneMoleculeReader(p1).get_molecule()
             m2 = io.OneMoleculeReader(p2).get_molecule()
             pts.Pseudotrajectory(m1, m2, arr).get_pt_as_universe()
+        elif route == "generator":
+            # the documented generator interface: the caller keeps the yielded frames and looks at them afterwards
+            m1 = io.OneMoleculeReader(p1).get_molecule()
+            m2 = io.OneMoleculeReader(p2).get_molecule()
+            pt = pts.Pseudotrajectory(m1, m2, arr)
+            frames = list(pt.generate_pseudotrajectory())
+            judge_retained_frames(frames, pt._verif_ref, "generate_pseudotrajectory (frames retained by the caller)")
         else:
             gp = os.path.join(d, f"grid_{idx}.npy")
             np.save(gp, arr)
